@@ -4,7 +4,9 @@ import json, os, re, shutil, subprocess, sys, time, hashlib, glob
 VERIF = os.path.dirname(os.path.dirname(os.path.abspath(__file__)))
 REPO = os.environ.get("VERIF_REPO", "/repo")
 SPECS = os.path.join(VERIF, "specs")
-HARNESS = os.path.join(VERIF, "harness")
+HARNESS = os.environ.get("VERIF_HARNESS", os.path.join(VERIF, "harness"))
+WORKBASE = os.environ.get("VERIF_WORKBASE", os.path.join(VERIF, ".work"))   # scratch; overridden by bin/mutcheck
+OUTBASE = os.environ.get("VERIF_OUTBASE", VERIF)                             # evidence/ and replays/ live here
 TLA_CP = "/opt/veriftools/tla/tla2tools.jar:/opt/veriftools/tla/CommunityModules-deps.jar"
 NCPU = os.cpu_count() or 4
 
@@ -25,7 +27,7 @@ def go_env():
 
 
 def workdir(pid, clean=True):
-    d = os.path.join(VERIF, ".work", pid)
+    d = os.path.join(WORKBASE, pid)
     if clean and os.path.isdir(d):
         shutil.rmtree(d, ignore_errors=True)
     os.makedirs(d, exist_ok=True)
@@ -57,7 +59,7 @@ def build_harness(name="vh", tags="verif"):
     if key in _built:
         return _built[key]
     shutil.copyfile(os.path.join(REPO, "go.sum"), os.path.join(HARNESS, "go.sum"))
-    out = os.path.join(VERIF, ".work", "bin", name)
+    out = os.path.join(WORKBASE, "bin", name)
     os.makedirs(os.path.dirname(out), exist_ok=True)
     cmd = ["go", "build", "-tags", tags, "-o", out, "./cmd/" + name]
     p = run(cmd, cwd=HARNESS, env=go_env(), timeout=1500, check=False)
@@ -72,7 +74,7 @@ def build_receptor(tags="verif"):
     key = ("receptor", tags)
     if key in _built:
         return _built[key]
-    out = os.path.join(VERIF, ".work", "bin", "receptor")
+    out = os.path.join(WORKBASE, "bin", "receptor")
     os.makedirs(os.path.dirname(out), exist_ok=True)
     cmd = ["go", "build", "-tags", tags, "-o", out, "./cmd/receptor-cl"]
     p = run(cmd, cwd=REPO, env=go_env(), timeout=1500, check=False)
@@ -279,18 +281,18 @@ class Verdict:
         }
         if self.known_hit:
             ev["coverage"]["known_findings_reproduced"] = sorted(self.known_hit)
-        os.makedirs(os.path.join(VERIF, "evidence"), exist_ok=True)
-        with open(os.path.join(VERIF, "evidence", self.pid + ".json"), "w") as f:
+        os.makedirs(os.path.join(OUTBASE, "evidence"), exist_ok=True)
+        with open(os.path.join(OUTBASE, "evidence", self.pid + ".json"), "w") as f:
             json.dump(ev, f, indent=1, sort_keys=True)
         if nviol:
-            os.makedirs(os.path.join(VERIF, "replays"), exist_ok=True)
+            os.makedirs(os.path.join(OUTBASE, "replays"), exist_ok=True)
             seen = set()
             for sig, what, replay in self.violations:
                 if sig in seen:
                     continue
                 seen.add(sig)
                 h = hashlib.sha1((sig + json.dumps(replay, sort_keys=True, default=str)).encode()).hexdigest()[:10]
-                path = os.path.join(VERIF, "replays", "%s_%s.json" % (self.pid, h))
+                path = os.path.join(OUTBASE, "replays", "%s_%s.json" % (self.pid, h))
                 with open(path, "w") as f:
                     json.dump({"property": self.pid, "signature": sig, "what": what, "replay": replay}, f, indent=1, default=str)
                 print("VIOLATION property=%s replay=%s" % (self.pid, path), flush=True)
